@@ -306,6 +306,21 @@ def check(cfg, lines):
                 v("C17", "%s %d: %s charged to the set-up state, its set-up period within the run lasted %s" % (kind, n, ts[0], want))
         if any(x < -1e-9 for x in ts):
             v("C17", "node %d has a negative state time %s" % (n, ts))
+        if kind == "source" and ncfg[n]["blocking"] and len(ts) == 3 and not crash:
+            # a blocking source is BLOCKED from the creation of an item until it has put it, GENERATING otherwise
+            blk = 0.0
+            for i_, tg_ in t_gen.items():
+                if place.get(i_) is None:
+                    continue
+                mine = [e_ for e_ in ev if e_[0] == "G" and e_[3] == i_ and e_[2] == n]
+                if not mine:
+                    continue
+                outs_ = [tq for (tq, e2) in t_put[i_] if src_of_edge[e2] == n]
+                blk += (min(outs_[0], T) if outs_ else T) - min(tg_, T)
+            want_gen = max(0.0, T - min(float(ncfg[n]["setup"]), float(T)) - blk)
+            if abs(ts[2] - blk) > 1e-6 or abs(ts[1] - want_gen) > 1e-6:
+                v("C17", "source %d: GENERATING / BLOCKED charged %s / %s, its items waited for room for %s in all (generating %s)" %
+                  (n, ts[1], ts[2], blk, want_gen))
         if kind == "machine":
             setup, idle, onep, allb, allp, oneb = ts
             for name, grp in (("A", setup + idle + allb + onep), ("B", setup + idle + allp + oneb)):
